@@ -703,7 +703,9 @@ def JOBS(tier):
 
 
 EVIDENCE = {
-    "bounds": {"quick": "proxied/TLS pools (c01_proxied): https direct, forwarding http proxy, CONNECT tunnel via http and via https proxy x fault "
+    "bounds": {"drain": "faults {timeout, reset, interrupt, EOF} while urlopen drains a 302/503 body it will follow/retry; 302/503 under six "
+                        "stacked gzip codings; interrupt inside Retry.sleep(); an interrupt raised inside the library reaches the caller",
+               "quick": "proxied/TLS pools (c01_proxied): https direct, forwarding http proxy, CONNECT tunnel via http and via https proxy x fault "
                         "{timeout, reset, EOF/cert failure, garbage, interrupt, SSLError, 403} at {connect, proxy TLS, CONNECT reply, origin TLS, "
                         "send, status line, mid-body} x maxsize 1-2 x block x preload x 5 disposals x 3 retry settings, every point; "
                         "direct pools: one attempt (re-entry cut) from a symbolic valid pool state; families: (B) block=True pool of maxsize 1 "
